@@ -698,47 +698,43 @@ Proof.
   destruct (nrun node0 ls) as [x os]. cbn [fst snd] in *. split; [apply flag_implies_installed; exact I|exact A].
 Qed.
 
-(* The READ revision (committed) of the new leader: the full-strength statement "once the leader flag
-   is up, the committed revision is at or above the installed version" is REFUTED by a follower read
-   that passed its IsLeader() check before the election and whose answer arrives afterwards
-   (finding C15-F2); it holds for every run without such a late install. *)
+(* The READ revision (committed) of the new leader: once the callback has installed the version, the
+   committed revision stays at or above it, for every interleaving with client requests and with
+   follower reads that passed their IsLeader() check before the election and whose answer arrives
+   afterwards — tso.Commit only raises (the repair of finding C15-F2). *)
 Definition committed_ok (x : node) : Prop :=
   match n_pc x with
   | CbLeading v | CbInstalled v => v <= committed (n_lead x)
   | _ => True
   end.
 
-Definition committed_follows_statement : Prop :=
-  forall ls, committed_ok (fst (nrun node0 ls)).
+Lemma set_current_committed_ge l r : committed l <= committed (set_current l r) /\ r <= committed (set_current l r).
+Proof. unfold set_current; cbn [committed]. destruct (committed l <? r) eqn:L; [apply N.ltb_lt in L|apply N.ltb_ge in L]; lia. Qed.
 
-Lemma committed_follows_refuted : ~ committed_follows_statement.
+Lemma committed_ok_step x l : node_inv x -> committed_ok x -> committed_ok (fst (nstep x l)).
 Proof.
-  intros H. specialize (H [NSyncCheck; NParse 100; NInstall; NFlag; NSyncInstall 50]).
-  vm_compute in H. apply H. reflexivity.
-Qed.
-
-Lemma committed_ok_step x l :
-  node_inv x -> is_sync_install l = false -> committed_ok x -> committed_ok (fst (nstep x l)).
-Proof.
-  intros I. unfold committed_ok. destruct l as [v| | | | |r]; cbn [is_sync_install nstep]; try discriminate; intros _.
+  intros I. unfold committed_ok. destruct l as [v| | | | |r]; cbn [nstep].
   - destruct (n_pc x) eqn:P; cbn [fst n_pc]; rewrite ?P; auto.
-  - destruct (n_pc x) eqn:P; cbn [fst n_pc n_lead]; rewrite ?P; auto. intros _. unfold set_current; cbn [committed]. lia.
+  - destruct (n_pc x) eqn:P; cbn [fst n_pc n_lead]; rewrite ?P; auto. intros _.
+    apply (set_current_committed_ge (n_lead x) v).
   - destruct (n_pc x) eqn:P; cbn [fst n_pc n_lead]; rewrite ?P; auto.
   - destruct (n_flag x) eqn:F; cbn [fst n_pc n_lead]; auto.
     destruct (flag_implies_installed x I F) as [v [P L]]. rewrite P. intros _. cbn [committed]. lia.
   - destruct (n_flag x); cbn [fst n_pc n_lead]; auto.
+  - destruct (n_pending x); cbn [fst n_pc n_lead]; auto.
+    pose proof (set_current_committed_ge (n_lead x) r) as [G _].
+    destruct (n_pc x); auto; intros H; lia.
 Qed.
 
-(* without a late install the committed revision follows: from any state that satisfies the invariants *)
-Lemma committed_follows_except ls : forall x,
-  node_inv x -> committed_ok x -> forallb (fun l => negb (is_sync_install l)) ls = true ->
-  committed_ok (fst (nrun x ls)).
+Lemma committed_follows_from ls : forall x, node_inv x -> committed_ok x -> committed_ok (fst (nrun x ls)).
 Proof.
-  induction ls as [|l tl IH]; intros x I C H; [exact C|]. cbn [forallb] in H. apply andb_true_iff in H as [Hl Ht].
-  apply negb_true_iff in Hl. cbn [nrun].
-  pose proof (node_inv_step x l I) as I1. pose proof (committed_ok_step x l I Hl C) as C1.
-  destruct (nstep x l) as [x1 o]. specialize (IH x1 I1 C1 Ht). destruct (nrun x1 tl). exact IH.
+  induction ls as [|l tl IH]; intros x I C; [exact C|]. cbn [nrun].
+  pose proof (node_inv_step x l I) as I1. pose proof (committed_ok_step x l I C) as C1.
+  destruct (nstep x l) as [x1 o]. specialize (IH x1 I1 C1). destruct (nrun x1 tl). exact IH.
 Qed.
+
+Lemma committed_follows ls : committed_ok (fst (nrun node0 ls)).
+Proof. apply committed_follows_from; [exact node_inv0|exact I]. Qed.
 
 (* ---------- elections with a failing timestamp read after the lock write ---------- *)
 
@@ -794,17 +790,21 @@ Qed.
 (* tso.Commit raises the dealt counter to any larger committed value: a node that was synced to
    revisions r_i as a follower (dealt counter = max r_i <> 0) and is then handed a version v at or
    above them and above every stored revision deals from v exactly like a fresh node *)
-Lemma set_current_spec l v : deal (set_current l v) = N.max (deal l) v /\ committed (set_current l v) = v.
+Lemma set_current_spec l v :
+  deal (set_current l v) = N.max (deal l) v /\ committed (set_current l v) = N.max (committed l) v.
 Proof.
-  unfold set_current; cbn [deal committed]. split; [|reflexivity].
-  destruct (deal l <? v) eqn:L; [apply N.ltb_lt in L|apply N.ltb_ge in L]; lia.
+  unfold set_current; cbn [deal committed]. split.
+  - destruct (deal l <? v) eqn:L; [apply N.ltb_lt in L|apply N.ltb_ge in L]; lia.
+  - destruct (committed l <? v) eqn:L; [apply N.ltb_lt in L|apply N.ltb_ge in L]; lia.
 Qed.
 
 Lemma safe_if_ahead_follower d v l :
-  WF d -> dmax d <= v -> deal l <= v ->
+  WF d -> dmax d <= v -> deal l <= v -> committed l <= v ->
   set_current l v = mkL v v /\ Good d (deal (set_current l v)).
 Proof.
-  intros W D L. assert (E : set_current l v = mkL v v).
-  { unfold set_current. destruct (deal l <? v) eqn:Q; [reflexivity|]. apply N.ltb_ge in Q. f_equal. lia. }
+  intros W D L C. assert (E : set_current l v = mkL v v).
+  { unfold set_current. f_equal.
+    - destruct (deal l <? v) eqn:Q; [reflexivity|]. apply N.ltb_ge in Q. lia.
+    - destruct (committed l <? v) eqn:Q; [reflexivity|]. apply N.ltb_ge in Q. lia. }
   split; [exact E|]. rewrite E. cbn [deal]. apply good_split. auto.
 Qed.
